@@ -237,3 +237,22 @@ func specReadyBucket(store *HStore, bucketID int) *Bucket {
 //@   ensures [assumed] dc.chunkid == srcChunk ==> !ghostScanEnd[dc]      // ghost protocol state of the GC pass: a file that starts being rewritten in place has not been scanned yet
 //@   ensures [assumed] dc.chunkid != srcChunk ==> ghostScanEnd[dc] == old(ghostScanEnd[dc])
 //@   ensures err == nil ==> dc.gcWriter != nil && dc.gcWriter.wbuf != nil
+
+// ---------- C17: what the admin handler (package gobeansdb) may rely on ----------
+
+// SpecGCStoreOK: the store-level preconditions of HStore.GC for every bucket (exported for the
+// contract of the web handler in package gobeansdb)
+func SpecGCStoreOK(store *HStore) bool {
+	return store.gcMgr != nil && store.gcMgr.stat != nil && Conf != nil && Conf.NumBucket <= len(store.buckets) &&
+		-specMaxDays <= Conf.NoGCDays && Conf.NoGCDays <= specMaxDays &&
+		forall(0, len(store.buckets), func(b int) bool { return specGCBucketOK(store, b) })
+}
+
+func specGCBucketOK(store *HStore, b int) bool {
+	return store.buckets[b] != nil && (!specGCRunning(store.gcMgr, store.buckets[b]) || store.gcMgr.stat[store.buckets[b]] != nil) && (store.buckets[b].State != BUCKET_STAT_READY ||
+		(store.buckets[b].datas != nil && 0 <= store.buckets[b].datas.newHead && store.buckets[b].datas.newHead < MAX_NUM_CHUNK &&
+			forall(0, MAX_NUM_CHUNK, func(i int) bool {
+				return len(store.buckets[b].datas.chunks[i].wbuf) == 0 || store.buckets[b].datas.chunks[i].wbuf[0] != nil
+			}) &&
+			0 <= store.buckets[b].NextGCChunk && store.buckets[b].NextGCChunk <= MAX_NUM_CHUNK))
+}
